@@ -271,7 +271,7 @@ PROPS = {
     "C14": dict(
         rule="generated plans of write(chunk)/rotate_output on GzipCborOutputWriter and XzCborOutputWriter for file-name and descriptor targets: chunk sizes 0, 1, 2047/2048/2049, 65535/65536, "
              "random up to 700 KiB (thorough 3 MiB); data classes zeros / repeating text / incompressible / mixed; plus enumerated large chunks (1, 4, 6.5, 9 MiB; thorough up to 48 MiB) x gzip/xz x name/fd "
-             "x incompressible/mixed, each followed by a rotation; rotations first attempted onto a destination that cannot be opened (must be refused by both writers) and, for named outputs, rotations "
+             "x incompressible/mixed, each followed by a rotation; plus enumerated volume runs (9 MiB, thorough 20 MiB, of mixed data in chunks of 2048 / 16384 bytes into one output) x gzip/xz x name/fd; rotations first attempted onto a destination that cannot be opened (must be refused by both writers) and, for named outputs, rotations "
              "onto the name that is already open (the finished file is replaced); plus end-to-end exporter histories with gzip/xz forced. Oracle: the same plan on the plain writer; every compressed output must be one "
              "complete stream (strict independent zlib/liblzma decoding, nothing after it), carry the .gz/.xz suffix, and decompress byte for byte to the plain output. Non-trivial: bytes > 0 and "
              "(>=2 writes | rotation | chunk >= 64 KiB).",
@@ -281,6 +281,7 @@ PROPS = {
         assumptions=["zlib inflate / liblzma stream decoder are correct"],
         jobs=[
             dict(harness="writers", prop="c14_large", kind="enum", size=(30, 80)),
+            dict(harness="writers", prop="c14_volume", kind="enum", size=(30, 80), workers=8),
             dict(harness="writers", prop="c14_plan", cases=(1600, 60000), size=(30, 80)),
             dict(harness="hist", prop="hist_c14", cases=(3000, 80000), size=(40, 100)),
         ],
